@@ -176,6 +176,16 @@ def job_config_roundtrip(ses, feature, proto):
     cp.FEATURES = feature + ',core'
     try:
         c01.job_roundtrip(ses, proto, 'some', 'some' if PROTOCOLS[proto]['assertion'] else 'none')
+    except RuntimeError as e:
+        if 'MIR dump failed' not in str(e): raise
+        # the crate does not build under this configuration with the toolchain that dumps MIR: the repository's own toolchain is the judge
+        okc, err = build.cargo_check(feature + ',core'); ses.native_runs += 1
+        ses.queries.append({'name': 'the configuration --no-default-features --features %s,core builds (MIR dump)' % feature, 'verdict': 'sat', 'expected': 'unsat', 'solver': 'rustc', 'agree': [], 'time_s': 0, 'lemma_instances': 0, 'per_solver': {}})
+        if not okc:
+            ses.violations.append({'what': 'feature set {%s,core} does not compile' % feature, 'detail': {'cargo_error': '\n'.join(l for l in err.split('\n') if l.startswith('error'))[:600]},
+                                   'replay': {'kind': 'c20_config', 'features': feature + ',core', 'confirmed_by_cargo': True}, 'key': None})
+        else: ses.undecided.append('the MIR dump of configuration %s fails although cargo check accepts it: %s' % (feature, str(e)[-300:]))
+        return
     finally:
         cp.FEATURES = None
     for v in ses.violations:
